@@ -35,7 +35,7 @@ BOOL_STR = ["true", "false", "True", "FALSE", "tRuE"]
 NEAR_MISS_STR = [" true", "false ", "\tTrue", "FALSE\n", "yes", "no", "on", "off", "0x10", "1,5", "1e", "--1", "½", "nan%", "truee", "t", "f",
                  "24:00:00", "2018-13-01", "12-31-1999", "10:30:60", "T10:30", "2018-01-02T", "1.2.3", "1__0", "_1", "1_", "∞", "+-1"]
 DATE_STR = ["2018-01-02", "1999-12-31", "2020-02-29"]
-TIME_STR = ["10:30:00", "23:59:59", "07:05", "12:00:00.123"]
+TIME_STR = ["10:30:00", "23:59:59", "07:05", "12:00:00.123", "10:00 EST", "12:30 PST"]
 DATETIME_STR = ["2018-01-02T10:30:00", "2018-01-02T10:30:00Z", "2018-01-02T10:30:00+03:00", "1999-12-31T23:59:59.999"]
 
 SCALAR_KINDS = ["int", "float", "bool", "null", "plain", "hostile", "long", "many", "intstr", "floatstr", "boolstr",
